@@ -155,7 +155,7 @@ def main():
                                        'contracts, discharged with z3 5.1 (second opinion z3 4.8 / cvc5); bounded counter-model search '
                                        'and native replay for refutations'}],
         'checks': checks,
-        'notes': 'checks are registered as they are built; see DESIGN.md',
+        'notes': '19 of the 20 properties have a check (C04 is not applicable to this technique family); quick = all obligations with z3 5.1; thorough = the same plus agreement of /usr/bin/z3 4.8 / cvc5 on every obligation and the CPython differential cross-check of the verifier; DESIGN.md section 0 describes what was built',
         'not_applicable': na,
     }
     path = os.path.join(HERE, 'MANIFEST.json')
